@@ -519,12 +519,12 @@ impl Check for C19 {
         "model_checking"
     }
     fn units(&self, tier: Tier, _seed: u64) -> Vec<Value> {
-        let mut out: Vec<Value> = defs(tier.pick(5, 6), true).into_iter().map(|mut d| {
+        let mut out: Vec<Value> = defs(tier.pick(6, 7), true).into_iter().map(|mut d| {
             if d.g == G::Point3 {
-                d.len = tier.pick(5, 7);
+                d.len = tier.pick(6, 8);
             }
             if d.g == G::Rect {
-                d.len = tier.pick(4, 6);
+                d.len = tier.pick(5, 7);
             }
             serde_json::to_value(d).unwrap()
         }).collect();
@@ -532,7 +532,7 @@ impl Check for C19 {
         for cmd_wrap in [W::Bare, W::Opt, W::Many] {
             for two_values in [false, true] {
                 for inner_switch in [false, true] {
-                    out.push(json!({"nest": NestDef { cmd_wrap, two_values, inner_switch, len: tier.pick(6, 7) }}));
+                    out.push(json!({"nest": NestDef { cmd_wrap, two_values, inner_switch, len: tier.pick(7, 8) }}));
                 }
             }
         }
@@ -596,6 +596,6 @@ impl Check for C19 {
         "definitions = {--point X | X Y | X Y Z, --point --w W --h H [--o], --point --w W X} x {bare, optional, many} x {no, optional, repeated trailing positional} x {neighbouring switch absent, declared before, declared after}; plus blocks inside blocks: an adjacent command (bare / optional / many) whose sub-parser holds a repeated adjacent group --point X [Y] (and optionally its own switch) beside a top-level switch, all vectors of length <= 6-7 over {cmd, --point, 1, 2, -v, -x}; every vector of the token tree over 6-8 tokens (leading flag, members, inline member, words, foreign -v / --zz, `--`); each node judged by the block scanner (a block = leading flag + contiguous members; one value per block; everything else belongs to the surrounding level); state = (definition, vector), transition = append token; non-trivial = judged vector containing the group's leading flag".into()
     }
     fn bounds(&self, tier: Tier) -> Value {
-        json!({"vector_length": tier.pick("5 (4 for the 4-member option-struct)", "6 (7 for --point X Y Z)"), "blocks": "0..3 per line within that length"})
+        json!({"vector_length": tier.pick("6 (5 for the 4-member option-struct, 7 nested)", "7 (8 for --point X Y Z and nested)"), "blocks": "0..3 per line within that length"})
     }
 }
